@@ -56,8 +56,9 @@ class IterationStats:
             period: Only display one result in every cycle of length
                 `period`.
             shift_cycles: If ``True``, apply an offset to the iteration
-                count so that display cycles end at 0, `period` - 1, etc.
-                Otherwise, cycles end at `period`, 2 * `period`, etc.
+                count so that display cycles end at (zero-based) insertions
+                0, `period`, 2 * `period`, etc. Otherwise, cycles end at
+                insertions `period` - 1, 2 * `period` - 1, etc.
             overwrite: If ``True``, display all results, but each one
                 overwrites the next, except for one result per cycle.
             colsep: Number of spaces seperating fields in displayed
